@@ -111,14 +111,17 @@ func (d *Downstream) Close(ctx context.Context) (err error) {
 }
 
 func (d *Downstream) closeWithError(ctx context.Context, cause error) (err error) {
-	defer d.cancel()
 	if d.isClosed() {
 		return nil
 	}
 	beforeStatus := d.state.Swap(streamStatusDraining)
 	if beforeStatus == streamStatusDraining {
+		// Another call is closing the stream: leave the stream context to that call. Cancelling it
+		// here would end its wait for the final ack flush and the close request would overtake the
+		// last acknowledgements.
 		return errors.New("already draining")
 	}
+	defer d.cancel()
 
 	if beforeStatus != streamStatusResuming {
 		// resume replaces the channel: read it under the stream lock
